@@ -1,11 +1,356 @@
-import Echse.Model.Daemon
+/-
+  C06 — checkpoint, crash and restart in the daemon model.
+
+  `fileOf fs u` is the queue file of user `u` in the spool `fs` (`none`: no file), `tasksOf s u` what
+  `chkpnt` writes for `u`, `chkpntUsers s` the users it rewrites (the dirty list; with 16 entries the list
+  has overflowed and the owners of the in-table tasks are rewritten instead).  A crash inside `chkpnt`
+  (`Cut`) and a failing call while one file is written (`chkpntFault`) leave every file either old or new;
+  `reload` (a new daemon on the spool) schedules exactly the tasks of the files, each under its owner, for a
+  well-formed spool (`FilesOK`).  `snapOf t` is what a file says of a task (uid, owner, limit, duration,
+  stream), `snapAt now t` the same with the occurrences earlier than `now` dropped.
+  Helper lemmas: Echse/Lemmas/Chkpnt.lean.
+-/
+import Echse.Lemmas.Chkpnt
+import Echse.Props.C11
 namespace C06
 open Echse.Daemon
 
-/-- smoke (general statements replace this): a checkpoint cut before the rename leaves the live file as it was -/
+/-! ### 1. a crash leaves every file old or new -/
+
+/-- `chkpnt` touches the files and the dirty list only -/
+theorem chkpnt_only_files (s : St) (cut : Option Cut) :
+    (chkpnt s cut).tasks = s.tasks ∧ (chkpnt s cut).children = s.children ∧ (chkpnt s cut).now = s.now ∧
+    (chkpnt s cut).me = s.me ∧ (chkpnt s cut).users = s.users ∧ (chkpnt s cut).dirty = [] :=
+  ⟨rfl, rfl, rfl, rfl, rfl, rfl⟩
+
+/-- `crash_old_or_new`: wherever the checkpoint is cut (or not at all), the file of every user is the old
+one (possibly none) or exactly `tasksOf s u`; a completed checkpoint gives every user of `chkpntUsers s`
+the new file and leaves the others alone -/
+theorem crash_old_or_new (s : St) (u : Nat) (cut : Option Cut) :
+    (fileOf (chkpnt s cut).files u = fileOf s.files u ∨
+      fileOf (chkpnt s cut).files u = some (tasksOf s u)) ∧
+    (cut = none → fileOf (chkpnt s cut).files u =
+      if u ∈ chkpntUsers s then some (tasksOf s u) else fileOf s.files u) := by
+  cases cut with
+  | none =>
+    rw [chkpnt_files_none, fileOf_writeAll]
+    refine ⟨?_, fun _ => rfl⟩
+    by_cases h : u ∈ chkpntUsers s
+    · exact Or.inr (by rw [if_pos h])
+    · exact Or.inl (by rw [if_neg h])
+  | some c =>
+    refine ⟨?_, fun h => by cases h⟩
+    rw [chkpnt_files_some]
+    by_cases hc : c.u ∈ chkpntUsers s
+    · rw [if_pos hc]
+      cases c.afterRename with
+      | true =>
+        simp only [if_true]
+        rw [fileOf_setFile, fileOf_writeAll]
+        by_cases h1 : u = c.u
+        · exact Or.inr (by rw [if_pos h1, h1])
+        · rw [if_neg h1]
+          by_cases h : u ∈ (chkpntUsers s).takeWhile (· != c.u)
+          · exact Or.inr (by rw [if_pos h])
+          · exact Or.inl (by rw [if_neg h])
+      | false =>
+        simp only [Bool.false_eq_true, if_false]
+        rw [fileOf_writeAll]
+        by_cases h : u ∈ (chkpntUsers s).takeWhile (· != c.u)
+        · exact Or.inr (by rw [if_pos h])
+        · exact Or.inl (by rw [if_neg h])
+    · rw [if_neg hc, fileOf_writeAll]
+      by_cases h : u ∈ chkpntUsers s
+      · exact Or.inr (by rw [if_pos h])
+      · exact Or.inl (by rw [if_neg h])
+
+/-- a completed checkpoint, file by file -/
+theorem chkpnt_complete (s : St) (u : Nat) :
+    fileOf (chkpnt s).files u = if u ∈ chkpntUsers s then some (tasksOf s u) else fileOf s.files u :=
+  (crash_old_or_new s u none).2 rfl
+
+/-! ### 2. the cut is a prefix of the user list -/
+
+/-- `cut_prefix`: the process dies while user `u` is written.  The users listed before the first occurrence
+of `u` (`(chkpntUsers s).takeWhile (· != u)`, see `before_first`) have their new file, `u` has the new file
+iff the rename was done, everybody else keeps the old file -/
+theorem cut_prefix (s : St) (u : Nat) (after : Bool) (hu : u ∈ chkpntUsers s) (v : Nat) :
+    fileOf (chkpnt s (some ⟨u, after⟩)).files v =
+      if v ∈ (chkpntUsers s).takeWhile (· != u) then some (tasksOf s v)
+      else if v = u ∧ after = true then some (tasksOf s u)
+      else fileOf s.files v := by
+  rw [chkpnt_files_some]
+  simp only []
+  rw [if_pos hu]
+  have hnu : u ∉ (chkpntUsers s).takeWhile (· != u) := fun c => (mem_takeWhile_ne c).2 rfl
+  cases after with
+  | true =>
+    simp only [if_true, and_true]
+    rw [fileOf_setFile, fileOf_writeAll]
+    by_cases h1 : v = u
+    · rw [if_pos h1, h1, if_neg hnu, if_pos rfl]
+    · rw [if_neg h1, if_neg h1]
+  | false =>
+    simp only [Bool.false_eq_true, if_false, and_false]
+    rw [fileOf_writeAll]
+
+/-- the list `l.takeWhile (· != u)` is what precedes the first occurrence of `u` in `l` -/
+theorem before_first {l : List Nat} {u : Nat} (h : u ∈ l) :
+    ∃ rest, l = l.takeWhile (· != u) ++ u :: rest ∧ u ∉ l.takeWhile (· != u) := split_first h
+
+/-- a cut at a user that is not rewritten never happens: the checkpoint completes -/
+theorem cut_absent (s : St) (c : Cut) (hu : c.u ∉ chkpntUsers s) :
+    (chkpnt s (some c)).files = (chkpnt s).files := by
+  rw [chkpnt_files_some, if_neg hu, chkpnt_files_none]
+
+/-! ### 3. a failing call is isolated -/
+
+/-- `fault_isolated`: a failing open / close / rename while `u`'s file is written leaves that file as it
+was — unless `u` is listed twice, then the second round writes it — and every other user of the list gets
+the new file -/
+theorem fault_isolated (s : St) (u v : Nat) :
+    fileOf (chkpntFault s u).files v =
+      if v = u then (if 2 ≤ (chkpntUsers s).count u then some (tasksOf s u) else fileOf s.files u)
+      else if v ∈ chkpntUsers s then some (tasksOf s v) else fileOf s.files v := by
+  rw [chkpntFault_files, fileOf_writeAll]
+  by_cases h : v = u
+  · rw [if_pos h, h]
+    by_cases h2 : 2 ≤ (chkpntUsers s).count u
+    · rw [if_pos (mem_erase_self_iff.mpr h2), if_pos h2]
+    · rw [if_neg (fun c => h2 (mem_erase_self_iff.mp c)), if_neg h2]
+  · rw [if_neg h]
+    by_cases h2 : v ∈ chkpntUsers s
+    · rw [if_pos ((List.mem_erase_of_ne h).mpr h2), if_pos h2]
+    · rw [if_neg (fun c => h2 ((List.mem_erase_of_ne h).mp c)), if_neg h2]
+
+/-- in particular the file of `u` is old or new, and nobody else notices the fault -/
+theorem fault_old_or_new (s : St) (u v : Nat) :
+    (fileOf (chkpntFault s u).files v = fileOf s.files v ∨
+      fileOf (chkpntFault s u).files v = some (tasksOf s v)) ∧
+    (v ≠ u → fileOf (chkpntFault s u).files v = fileOf (chkpnt s).files v) := by
+  rw [fault_isolated, chkpnt_complete]
+  refine ⟨?_, fun h => by rw [if_neg h]⟩
+  by_cases h : v = u
+  · rw [if_pos h, h]
+    by_cases h2 : 2 ≤ (chkpntUsers s).count u
+    · exact Or.inr (by rw [if_pos h2])
+    · exact Or.inl (by rw [if_neg h2])
+  · rw [if_neg h]
+    by_cases h2 : v ∈ chkpntUsers s
+    · exact Or.inr (by rw [if_pos h2])
+    · exact Or.inl (by rw [if_neg h2])
+
+/-! ### 4. a new daemon restores the spool -/
+
+/-- every task of a well-formed spool is accepted by `_inject_task1(t, NOT_A_UID)` in the root daemon: the
+unknown peer acts for the known owner the `OWNER` field names, and the uid is free -/
+theorem spool_inject_succeeds {s : St} (hme : s.me = 0) {o : Nat} (hk : Known s o) (uid : String)
+    (ms dur : Nat) (occ : List Nat) (hfree : absMap s uid = none) :
+    (inject s uid (some o) ms dur occ true notAUid).2 = true :=
+  (C11.inject_success_iff s uid (some o) ms dur occ true notAUid).mpr
+    ⟨rfl, o, effOwner_spool hk (Or.inl hme), Or.inl hfree⟩
+
+/-- `reload_restores`: for a well-formed spool (`FilesOK`: ascending streams, one task per uid over all
+files, every task in the file of its owner, owners known) the table of the root daemon started on it at
+clock value `now` consists of in-table records only, one per task of the files and in their order, with the
+uid, owner, limit and duration of the file and the stream of the file without the occurrences earlier than
+`now`; the new state is well-formed -/
+theorem reload_restores {files : List (Nat × List DTask)} (h : FilesOK files) (now : Nat) :
+    (∀ t ∈ (reload files 0 now).tasks, t.inTable = true) ∧
+    (reload files 0 now).tasks.map snapOf = (files.flatMap (·.2)).map (snapAt now) ∧
+    Inv (reload files 0 now) :=
+  ⟨(reload_tasks h 0 now (Or.inl rfl)).1, (reload_tasks h 0 now (Or.inl rfl)).2,
+   C11.reload_inv files 0 now h.sorted⟩
+
+/-- … user by user (one file per user): what the new daemon schedules for `u` is what `u`'s file says,
+without the occurrences already past and the tasks that have none left; nothing for a user without file -/
+theorem reload_restores_user {files : List (Nat × List DTask)} (h : FilesOK files)
+    (hk : (keys files).Nodup) (now u : Nat) :
+    (tasksOf (reload files 0 now) u).map snapOf =
+      (((fileOf files u).getD []).map (snapAt now)).filter (fun sn => !sn.occ.isEmpty) :=
+  reload_user h hk 0 now (Or.inl rfl) u
+
+/-- a user daemon (`me ≠ 0`) restores a spool that holds tasks of its own user only in the same way -/
+theorem reload_restores_own {files : List (Nat × List DTask)} (h : FilesOK files) (me now : Nat)
+    (hown : ∀ f ∈ files, ∀ t ∈ f.2, t.owner = me) :
+    (∀ t ∈ (reload files me now).tasks, t.inTable = true) ∧
+    (reload files me now).tasks.map snapOf = (files.flatMap (·.2)).map (snapAt now) :=
+  reload_tasks h me now (Or.inr hown)
+
+/-! ### 5. clean shutdown -/
+
+/-- a request marks its peer dirty iff one of its instructions succeeded (and the list is not full) -/
+theorem request_marks_peer (s : St) (p : Nat) (ins : List Instr) :
+    (cmdIcal s p ins).1.dirty =
+      if (cmdIcal s p ins).2.any (·.2) = true ∧ s.dirty.length < 16 then s.dirty ++ [p] else s.dirty :=
+  cmdIcal_dirty s p ins
+
+/-- `unsched` (a task without occurrences left leaves the table) marks the owner -/
+theorem unsched_marks_owner (s : St) (t : DTask) :
+    (unsched s t).dirty = if s.dirty.length < 16 then s.dirty ++ [t.owner] else s.dirty :=
+  unsched_dirty s t
+
+/-- below 16 entries the checkpoint rewrites the dirty users; from 16 on, the owners of in-table tasks -/
+theorem chkpnt_users (s : St) :
+    (s.dirty.length < 16 → chkpntUsers s = s.dirty) ∧
+    (16 ≤ s.dirty.length → ∀ u, u ∈ chkpntUsers s ↔ ∃ t ∈ s.tasks, t.inTable = true ∧ t.owner = u) :=
+  ⟨chkpntUsers_dirty, mem_chkpntUsers_overflow⟩
+
+/-- the spool after a completed checkpoint of a well-formed state is well-formed, if there is one file per
+user and the files that are not rewritten are `Current` (each entry names an in-table task of the file's
+user: e.g. the file is `tasksOf s u`, an older snapshot of tasks still there, or empty) -/
+theorem chkpnt_spool_ok {s : St} (h : Inv s) (hu : s.users = ({ me := 0 } : St).users)
+    (hk : (keys s.files).Nodup) (hc : ∀ f ∈ s.files, f.1 ∉ chkpntUsers s → Current s f) :
+    FilesOK (chkpnt s).files ∧ (keys (chkpnt s).files).Nodup := FilesOK_chkpnt h hu hk hc
+
+/-- `clean_shutdown`: checkpoint, stop, start a root daemon on the spool at the same clock value.  If the
+dirty list has not overflowed and the files of the users that are not dirty are `Current`, the new daemon
+schedules for every dirty user exactly the tasks the old one had for that user (uid, owner, limit,
+duration, remaining stream), for every other user what the user's file says; its state is well-formed -/
+theorem clean_shutdown {s : St} (h : Inv s) (hu : s.users = ({ me := 0 } : St).users)
+    (hk : (keys s.files).Nodup) (hl : s.dirty.length < 16)
+    (hc : ∀ f ∈ s.files, f.1 ∉ s.dirty → Current s f) :
+    Inv (reload (chkpnt s).files 0 s.now) ∧
+    (∀ u ∈ s.dirty, (tasksOf (reload (chkpnt s).files 0 s.now) u).map snapOf = (tasksOf s u).map snapOf) ∧
+    (∀ u, u ∉ s.dirty → (tasksOf (reload (chkpnt s).files 0 s.now) u).map snapOf =
+      (((fileOf s.files u).getD []).map (snapAt s.now)).filter (fun sn => !sn.occ.isEmpty)) := by
+  have hcu := chkpntUsers_dirty hl
+  have hc' : ∀ f ∈ s.files, f.1 ∉ chkpntUsers s → Current s f := by rw [hcu]; exact hc
+  refine ⟨C11.reload_inv _ 0 s.now (FilesOK_chkpnt h hu hk hc').1.sorted, ?_, ?_⟩
+  · intro u hm
+    exact chkpnt_reload_user h hu hk hc' (by rw [hcu]; exact hm)
+  · intro u hm
+    exact chkpnt_reload_other h hu hk hc' s.now (by rw [hcu]; exact hm)
+
+/-- … in either mode of `chkpnt`: if the files that are not rewritten are up to date (`tasksOf s u`, or no
+file and no task), the new daemon has the table of the old one, user by user -/
+theorem clean_shutdown_all {s : St} (h : Inv s) (hu : s.users = ({ me := 0 } : St).users)
+    (hk : (keys s.files).Nodup)
+    (hsync : ∀ u, u ∉ chkpntUsers s →
+      fileOf s.files u = some (tasksOf s u) ∨ (fileOf s.files u = none ∧ tasksOf s u = []))
+    (u : Nat) :
+    (tasksOf (reload (chkpnt s).files 0 s.now) u).map snapOf = (tasksOf s u).map snapOf :=
+  chkpnt_reload_all h hu hk hsync u
+
+/-- the overflowed dirty list (16 entries): the owners of in-table tasks are restored, under the same
+proviso on the other files — which a user whose last task was cancelled violates, see the examples -/
+theorem clean_shutdown_overflow {s : St} (h : Inv s) (hu : s.users = ({ me := 0 } : St).users)
+    (hk : (keys s.files).Nodup) (hl : 16 ≤ s.dirty.length)
+    (hc : ∀ f ∈ s.files, (∀ t ∈ s.tasks, t.inTable = true → t.owner ≠ f.1) → Current s f)
+    {u : Nat} {t : DTask} (ht : t ∈ s.tasks) (hi : t.inTable = true) (ho : t.owner = u) :
+    (tasksOf (reload (chkpnt s).files 0 s.now) u).map snapOf = (tasksOf s u).map snapOf := by
+  have hc' : ∀ f ∈ s.files, f.1 ∉ chkpntUsers s → Current s f := by
+    intro f hf hn
+    apply hc f hf
+    intro x hx hxi hxo
+    exact hn ((mem_chkpntUsers_overflow hl f.1).mpr ⟨x, hx, hxi, hxo⟩)
+  exact chkpnt_reload_user h hu hk hc' ((mem_chkpntUsers_overflow hl u).mpr ⟨t, ht, hi, ho⟩)
+
+/-! ### concrete states -/
+
+/-- a checkpoint cut before the rename leaves the live file as it was -/
 theorem cut_before_rename_keeps_old :
     (chkpnt { me := 0, dirty := [1001], files := [(1001, [])],
               tasks := [{ sid := 0, uid := "j", owner := 1001, occ := [5], dur := 0, maxSimul := 63 }] }
             (some { u := 1001, afterRename := false })).files.map (fun f => (f.1, f.2.map DTask.uid)) = [(1001, [])] := by decide
+
+/-- … cut after the rename the file is the new one; the user behind keeps the old file in both cases -/
+example :
+    (chkpnt { me := 0, dirty := [1001, 1002], files := [(1001, []), (1002, [])],
+              tasks := [{ sid := 0, uid := "j", owner := 1001, occ := [5], dur := 0, maxSimul := 63 },
+                        { sid := 1, uid := "k", owner := 1002, occ := [7], dur := 0, maxSimul := 63 }] }
+            (some { u := 1001, afterRename := true })).files.map (fun f => (f.1, f.2.map DTask.uid))
+      = [(1001, ["j"]), (1002, [])] := by decide
+
+/-- a fault at 1001: 1002 is written, 1001 is not; listed twice, 1001 is written by the second round -/
+example :
+    (chkpntFault { me := 0, dirty := [1001, 1002], files := [(1001, [])],
+                   tasks := [{ sid := 0, uid := "j", owner := 1001, occ := [5], dur := 0, maxSimul := 63 },
+                             { sid := 1, uid := "k", owner := 1002, occ := [7], dur := 0, maxSimul := 63 }] }
+            1001).files.map (fun f => (f.1, f.2.map DTask.uid)) = [(1001, []), (1002, ["k"])] ∧
+    (chkpntFault { me := 0, dirty := [1001, 1002, 1001], files := [(1001, [])],
+                   tasks := [{ sid := 0, uid := "j", owner := 1001, occ := [5], dur := 0, maxSimul := 63 },
+                             { sid := 1, uid := "k", owner := 1002, occ := [7], dur := 0, maxSimul := 63 }] }
+            1001).files.map (fun f => (f.1, f.2.map DTask.uid)) = [(1001, ["j"]), (1002, ["k"])] := by decide
+
+/-- `FilesOK` is inhabited by the spool of the next example -/
+example : FilesOK [(1001, [{ sid := 0, uid := "j", owner := 1001, occ := [5, 9, 12], dur := 0, maxSimul := 63 }]),
+                   (1002, [{ sid := 0, uid := "k", owner := 1002, occ := [7], dur := 0, maxSimul := 2 }])] where
+  sorted := by simp
+  uids := by decide
+  owner := by simp
+  known := by simp [Known, notAUid]
+
+/-- a new daemon at clock value 8: past occurrences are dropped; a task left without occurrences is loaded
+(and unscheduled by the next iteration); a user daemon (`me = 1001`) refuses the tasks of other users -/
+example :
+    (reload [(1001, [{ sid := 0, uid := "j", owner := 1001, occ := [5, 9, 12], dur := 0, maxSimul := 63 }]),
+             (1002, [{ sid := 0, uid := "k", owner := 1002, occ := [7], dur := 0, maxSimul := 2 }])] 0 8).tasks.map snapOf
+      = [{ uid := "j", owner := 1001, maxSimul := 63, dur := 0, occ := [9, 12] },
+         { uid := "k", owner := 1002, maxSimul := 2, dur := 0, occ := [] }] ∧
+    (reload [(1001, [{ sid := 0, uid := "j", owner := 1001, occ := [5, 9, 12], dur := 0, maxSimul := 63 }]),
+             (1002, [{ sid := 0, uid := "k", owner := 1002, occ := [7], dur := 0, maxSimul := 2 }])] 1001 8).tasks.map snapOf
+      = [{ uid := "j", owner := 1001, maxSimul := 63, dur := 0, occ := [9, 12] }] := by decide
+
+/-- the hypotheses of `clean_shutdown` hold in a reachable state with a file that is not rewritten: user
+1001's task `j` is checkpointed, then user 1002 schedules `k` -/
+example :
+    let s := (run { me := 0 } [.req 1001 [.sched "j" none 63 0 [10] true], .chk,
+                               .req 1002 [.sched "k" none 63 0 [20] true]]).1
+    Inv s ∧ s.users = ({ me := 0 } : St).users ∧ (keys s.files).Nodup ∧ s.dirty = [1002] ∧
+    (fileOf s.files 1001).map (·.map DTask.uid) = some ["j"] ∧
+    ∀ f ∈ s.files, f.1 ∉ s.dirty → Current s f := by
+  intro s
+  refine ⟨C11.reachable_inv 0 _ (by simp [Mono, instrSorted]), by decide, by decide, by decide, by decide, ?_⟩
+  unfold Current
+  decide
+
+/-- user 1001 schedules `j`, checkpoint; `n` successful requests of user 1002; user 1001 cancels `j` -/
+def cancelHist (n : Nat) : List Op :=
+  [.req 1001 [.sched "j" none 63 0 [10] true], .chk] ++
+  List.replicate n (.req 1002 [.sched "k" none 63 0 [20] true]) ++
+  [.req 1001 [.cancel "j"]]
+
+set_option maxRecDepth 4000 in
+/-- 15 dirty entries: the checkpoint empties the file of 1001, a new daemon has `k` only -/
+example :
+    (run { me := 0 } (cancelHist 14)).1.dirty.length = 15 ∧
+    (run { me := 0 } (cancelHist 14 ++ [.chk])).1.files.map (fun f => (f.1, f.2.map snapOf))
+      = [(1001, []), (1002, [{ uid := "k", owner := 1002, maxSimul := 63, dur := 0, occ := [20] }])] ∧
+    (reload (run { me := 0 } (cancelHist 14 ++ [.chk])).1.files 0 0).tasks.map snapOf
+      = [{ uid := "k", owner := 1002, maxSimul := 63, dur := 0, occ := [20] }] := by decide
+
+set_option maxRecDepth 4000 in
+/-- FINDING (recorded): 16 dirty entries — none lost, user 1001 is the 16th — switch `chkpnt` to "owners of
+in-table tasks".  User 1001 has none left, so the file that still holds the cancelled `j` is not rewritten,
+and a new daemon schedules `j` again -/
+theorem cancelled_task_survives_overflow :
+    (run { me := 0 } (cancelHist 15)).1.dirty = List.replicate 15 1002 ++ [1001] ∧
+    absMap (run { me := 0 } (cancelHist 15)).1 "j" = none ∧
+    tasksOf (run { me := 0 } (cancelHist 15)).1 1001 = [] ∧
+    chkpntUsers (run { me := 0 } (cancelHist 15)).1 = [1002] ∧
+    (run { me := 0 } (cancelHist 15 ++ [.chk])).1.files.map (fun f => (f.1, f.2.map snapOf))
+      = [(1001, [{ uid := "j", owner := 1001, maxSimul := 63, dur := 0, occ := [10] }]),
+         (1002, [{ uid := "k", owner := 1002, maxSimul := 63, dur := 0, occ := [20] }])] ∧
+    (reload (run { me := 0 } (cancelHist 15 ++ [.chk])).1.files 0 0).tasks.map snapOf
+      = [{ uid := "j", owner := 1001, maxSimul := 63, dur := 0, occ := [10] },
+         { uid := "k", owner := 1002, maxSimul := 63, dur := 0, occ := [20] }] := by decide
+
+set_option maxRecDepth 4000 in
+/-- … and when user 1002 then schedules a task `j` of its own (accepted, checkpointed), the spool holds the uid
+twice (`FilesOK.uids` fails); the new daemon gives `j` back to user 1001 with the old stream and refuses the
+task of user 1002 -/
+theorem stale_file_shadows_new_task :
+    (run { me := 0 } (cancelHist 15 ++ [.chk, .req 1002 [.sched "j" none 63 0 [30] true], .chk])).2.2.getLast?
+      = some ("j", true) ∧
+    (run { me := 0 } (cancelHist 15 ++ [.chk, .req 1002 [.sched "j" none 63 0 [30] true], .chk])).1.files.map
+        (fun f => (f.1, f.2.map snapOf))
+      = [(1001, [{ uid := "j", owner := 1001, maxSimul := 63, dur := 0, occ := [10] }]),
+         (1002, [{ uid := "k", owner := 1002, maxSimul := 63, dur := 0, occ := [20] },
+                 { uid := "j", owner := 1002, maxSimul := 63, dur := 0, occ := [30] }])] ∧
+    (reload (run { me := 0 } (cancelHist 15 ++ [.chk, .req 1002 [.sched "j" none 63 0 [30] true], .chk])).1.files
+        0 0).tasks.map snapOf
+      = [{ uid := "j", owner := 1001, maxSimul := 63, dur := 0, occ := [10] },
+         { uid := "k", owner := 1002, maxSimul := 63, dur := 0, occ := [20] }] := by decide
 
 end C06
